@@ -909,7 +909,8 @@ func checkCloseErr(r *Run, rc *RuleCtx, m *clientModel) {
 		}
 		agentNil, connNil := false, false
 		for _, pc := range c.PathConds() {
-			bo, ok := pc.Cond.(*ssa.BinOp)
+			// a condition merged by || / && is the operand the path came through
+			bo, ok := c.Resolve(pc.Cond).(*ssa.BinOp)
 			if !ok || (bo.Op != token.EQL && bo.Op != token.NEQ) {
 				continue
 			}
